@@ -166,6 +166,7 @@ func (q *remoteQuery) Exec(ctx context.Context) *promql.Result {
 		select {
 		case <-ctx.Done():
 			t.Stop()
+			sched.Yield("remote.cancelled")
 			return &promql.Result{Err: ctx.Err()}
 		case <-t.C:
 		}
